@@ -24,6 +24,7 @@ package fsm
 // The indexer's IndexDoubleSigner carries the precondition "not yet indexed" (assumed contract in
 // /verif/spec/externals.contracts); it is checked at its call site here on every path.
 //@ func (*StateMachine).HandleDoubleSigners
+//@   requires[params] wfValParams(params)
 
 // ---- C04: token supply conservation ------------------------------------------------------------------
 // Abstract state (ghost): what the store holds, seen through the typed accessors.
@@ -512,6 +513,12 @@ package fsm
 // parameter reads do not write state
 //@ func (*StateMachine).GetParamsVal
 //@   trusted
+//@   modifies cache.valParams
+//@   ensures isnil(err) ==> ptr != nil
+//@   ensures[checked] isnil(err) ==> wfValParams(ptr)
+// protocol-version switch: reads the consensus parameters (not cached)
+//@ func (*StateMachine).IsFeatureEnabled
+//@   trusted
 //@   pure
 //@ func (*StateMachine).SetValidatorUnstakingIfBelowMinimum
 //@   ensures[skip] old(validator.UnstakingHeight) != 0 ==> !result0 && result1 == nil
@@ -531,6 +538,39 @@ package fsm
 //@   trusted
 //@   modifies ghost(kvHas)
 //@   ensures forall h int, a BSeq :: kvHas(unstakeKey(h, a)) == old(kvHas(unstakeKey(h, a))) && kvHas(pausedKey(h, a)) == old(kvHas(pausedKey(h, a)))
+
+// ---- C14: per-committee slash cap -----------------------------------------------------------------------------
+// slashPct(t)[a][c]: percent of validator a's stake that committee c has slashed so far in this block
+// (the tracker is a map of maps; its two accessors are ASSUMED to implement this view)
+//@ ghost slashPct(t *SlashTracker) [BSeq][int]int
+//@ func (*SlashTracker).GetTotalSlashPercent
+//@   trusted
+//@   pure
+//@   ensures percent == slashPct(s)[bytes(address)][chainId]
+//@ func (*SlashTracker).AddSlash
+//@   trusted
+//@   modifies ghost(slashPct)
+//@   ensures slashPct(s) == old(store(slashPct(s), bytes(address), store(slashPct(s)[bytes(address)], chainId, wrap64(slashPct(s)[bytes(address)][chainId] + percent))))
+// stored validator parameters have passed ValidatorParams.Check (percentages at most 100): ASSUMED of the
+// parameter store; SlashValidator relies on it (a percent above 2^64-100 would wrap the cap comparison)
+//@ spec func wfValParams(p *ValidatorParams) bool = p != nil && p.NonSignSlashPercentage <= 100 && p.DoubleSignSlashPercentage <= 100 && p.MaxSlashPerCommittee <= 100
+//@ func (*StateMachine).SlashValidators
+//@   requires[percent] percent <= 100 && p != nil && p.MaxSlashPerCommittee <= 100
+//@ func (*StateMachine).SlashNonSigners
+//@   requires[params] wfValParams(params)
+//@ func (*StateMachine).SlashDoubleSigners
+//@   requires[params] wfValParams(params)
+//@ func (*StateMachine).SlashAndResetNonSigners
+//@   requires[params] wfValParams(params)
+// (its iteration callback runs through the store iterator interface, outside the generator's frame inference;
+// that it leaves the parameter object alone is ASSUMED)
+//@   assumed[paramsframe] unchanged(params.NonSignSlashPercentage, params.DoubleSignSlashPercentage, params.MaxSlashPerCommittee)
+//@ func (*StateMachine).SlashValidator
+//@   requires[percent] percent <= 100 && p != nil && p.MaxSlashPerCommittee <= 100
+//@   callsite AddSlash requires[cap] slashTotal < p.MaxSlashPerCommittee && slashTotal + callee.percent <= p.MaxSlashPerCommittee && callee.percent == percent
+//@   callsite AddSlash requires[same] callee.chainId == chainId && bytes(callee.address) == bytes(validator.Address) && slashTotal == slashPct(s.slashTracker)[bytes(validator.Address)][chainId]
+//@   callsite SubFromTotalSupply requires[burn] stakeAfterSlash <= validator.StakedAmount && callee.amount == validator.StakedAmount - stakeAfterSlash
+//@   callsite SubFromTotalSupply requires[bounded] percent < 100 ==> 100 * stakeAfterSlash + 100 > validator.StakedAmount * (100 - percent)
 
 // the swap loop never divides by zero: the counter-chain reserve is positive on entry to the loop
 // and only grows
